@@ -301,6 +301,7 @@ Lemma fold_chk_others l : Forall other_ok l -> forall acc,
   fold_left (fun acc o =>
      obind acc (fun a =>
        let '(amt, np, na) := o in
+       if Z.eqb na 0 then None else
        obind (chk (amt * np)) (fun m =>
          let s := a + dec_quo_int (dec_of_int m) na in
          if dec_okb s then Some s else None))) l (Some acc) = Some (acc + others_sum l).
@@ -308,7 +309,7 @@ Proof.
   induction 1 as [|o l Ho Hl IH]; intros acc Ha Hb Hm; cbn [fold_left others_sum fold_right].
   - f_equal; lia.
   - destruct o as [[amt np] na]. destruct Ho as (H1 & H2 & H3). inversion Hm as [|? ? Hm1 Hm2]; subst.
-    cbn [obind]. assert (0 <= amt * np) by nia. rewrite chk_some by lia. cbn [obind]. cbn zeta.
+    cbn [obind]. replace (na =? 0) with false by lia. assert (0 <= amt * np) by nia. rewrite chk_some by lia. cbn [obind]. cbn zeta.
     destruct (other_dec_floor amt np na H1 H2 H3) as [E Hpos]. unfold other_dec in E, Hpos.
     rewrite E.
     pose proof (conv_dec_sum_gen _ Hl 0) as [_ Hs].
